@@ -73,12 +73,18 @@ Definition class_filter (valid : bool) (cls : list Z) (classes : list Z) : list 
   sel_from 0 (fun c => Bool.eqb (existsb (Z.eqb c) cls) valid) classes.
 
 (* ---------------- PercentFilterWrapper ---------------- *)
-Definition percent_filter (n : Z) (from to : option float) (cf ct : bool) : option (list Z) :=
+(* `cut ceil p n` is the percent -> index map (int(p * n) or np.ceil(p * n)); the wrappers are
+   written over an arbitrary one so that the theorems can state what they need of it; the
+   executable instances below use the binary64 fcut. *)
+Definition cut_t : Type := bool -> float -> Z -> Z.
+
+Definition percent_filter_g (cut : cut_t) (n : Z) (from to : option float) (cf ct : bool) : option (list Z) :=
   let fp := odflt from 0%float in          (* from_percent or 0. *)
   let tp := odflt to 1%float in            (* 1. if to_percent is None else to_percent *)
   if pct_ok fp && pct_ok tp
-  then Some (zrange (fcut cf fp n) (fcut ct tp n))
+  then Some (zrange (cut cf fp n) (cut ct tp n))
   else None.
+Definition percent_filter := percent_filter_g fcut.
 
 (* ---------------- SubsetWrapper ---------------- *)
 Definition subset_indices (n : Z) (idxs : list Z) : option (list Z) :=
@@ -92,12 +98,13 @@ Definition subset_range (n : Z) (s e : option Z) : option (list Z) :=
   let s' := odflt s 0 in
   if s' <=? e' then Some (zrange s' e') else None.
 
-Definition subset_percent (n : Z) (s e : option float) : option (list Z) :=
+Definition subset_percent_g (cut : cut_t) (n : Z) (s e : option float) : option (list Z) :=
   if negb (is_some s || is_some e) then None else
   if negb (pct_ok (odflt s 0%float) && pct_ok (odflt e 1%float)) then None else
   let sp := odflt s 0%float in
   let ep := odflt e 1%float in
-  if PrimFloat.leb sp ep then Some (zrange (fcut false sp n) (fcut false ep n)) else None.
+  if PrimFloat.leb sp ep then Some (zrange (cut false sp n) (cut false ep n)) else None.
+Definition subset_percent := subset_percent_g fcut.
 
 (* ---------------- ShuffleWrapper: rng.shuffle(arange(n)) ---------------- *)
 Definition shuffle (n : Z) (draw : list Z) : list Z := draw.
@@ -232,7 +239,7 @@ Definition classwise_range (classes : list Z) (C : Z) (s e : option Z) (check : 
       end
   end.
 
-Definition classwise_percent (classes : list Z) (C : Z) (s e : option float) : option (list Z) :=
+Definition classwise_percent_g (cut : cut_t) (classes : list Z) (C : Z) (s e : option float) : option (list Z) :=
   match class_counts classes C with
   | None => None
   | Some _ =>
@@ -243,9 +250,10 @@ Definition classwise_percent (classes : list Z) (C : Z) (s e : option float) : o
       if negb (PrimFloat.leb sp ep) then None else
       Some (concat (map (fun i =>
                   let cnt := count_of i classes in
-                  slice (positions i classes) (fcut false sp cnt) (fcut false ep cnt))
+                  slice (positions i classes) (cut false sp cnt) (cut false ep cnt))
                 (zrange 0 C)))
   end.
+Definition classwise_percent := classwise_percent_g fcut.
 
 (* ---------------- one constructor call ---------------- *)
 Inductive wcase :=
